@@ -3784,7 +3784,10 @@ class DecVarSub(VarSub):
 
     def affadapt(self, rvars):
 
-        if self.vtype in ['B', 'I']:
+        vtype = self.vtype
+        if len(vtype) > 1:
+            vtype = np.array(list(vtype))[self.indices]
+        if any(each in 'BI' for each in np.array(vtype).flatten()):
             raise ValueError('No affine adaptation for integer variables.')
         if self.dro_model is not rvars.model.top:
             raise ValueError('Model mismatch.')
